@@ -72,6 +72,7 @@ PROPS = {
             {"harness": "H_C04_update", "reach": ["changed", "unchanged"], "quick": {"frames": 2, "n": 2}, "thorough": {"frames": 2, "n": 3}},
             {"harness": "H_C04_update", "params": {"struct": 1, "frames": 1}, "quick": {"lines": 2}, "thorough": {"lines": 3}},
             {"harness": "H_C04_update", "params": {"struct": 1, "frames": 2, "minframes": 2}, "quick": {"lines": 1}, "thorough": {"lines": 1}},
+            {"harness": "H_C04_update", "params": {"big": 5000, "frames": 2, "minframes": 2, "n": 1}},
             {"harness": "H_C04_standalone", "quick": {"n": 3}, "thorough": {"n": 4}},
         ],
         "bounds": {"quick": "1..2 entries, each changed or not, old/new ASCII texts <= 2 bytes; standalone: texts <= 3 bytes",
@@ -160,6 +161,7 @@ PROPS = {
     "C09": {
         "runs": [
             {"harness": "H_clean", "params": {"prop": 9}, "reach": ["stale-entries", "second-file-stale"], "quick": {"count": 2, "n": 0}, "thorough": {"count": 3, "n": 1, "n0": 1}},
+            {"harness": "H_C08_skip", "reach": ["skip-mode"], "quick": {"lit": 1}, "thorough": {"lit": 2}},
         ],
         "bounds": {"quick": "same program and directory shapes as C07; all three Clean modes incl. sort requested on an unsorted file with stale entries",
                    "thorough": "-count 1..3, all bodies symbolic"},
@@ -182,6 +184,7 @@ PROPS = {
             {"harness": "H_C10_rewrite", "reach": ["no-op", "rewrite"], "quick": {"frames": 2, "n": 1, "digits": 1}, "thorough": {"frames": 2, "n": 0, "digits": 2}, "timeout_s": {"thorough": 1500}},
             {"harness": "H_C10_bodies", "quick": {"lines": 2}, "thorough": {"lines": 3}},
             {"harness": "H_C10_natural"},
+            {"harness": "H_C10_ties"},
         ],
         "bounds": {"quick": "files of 1..2 entries with ids Test<a-c> - <1-9> (symbolic letter and digit), bodies of <= 1 arbitrary byte, each entry stale or live, update x sort; "
                             "one entry with a 1..2-line structured body (token shapes, header-like line) rewritten because of a stale or unsorted neighbour; one- vs two-digit ordinals (symbolic digits) in both orders",
